@@ -70,3 +70,18 @@ Definition merkle_lock (root : bytes) : bytes := encode [IFix O_MERKLEVAL root].
 Definition adapter_check_lock (fl : byte) (tweak_point pk : bytes) : bytes :=
   encode [IOp1 O_GET_MESSAGE fl; P1 tweak_point; P1 pk; IOp0 O_CHECK_ADAPTER_SIG].
 Definition adapter_decrypt (t : bytes) : bytes := encode [P1 t; IOp0 O_DECRYPT_ADAPTER_SIG].
+
+(* make_nonnative_taproot_lock (root computed by the builder) *)
+(* def 0 { push x<root> } *)
+Definition nn_def (root : bytes) : instr := IDef x00 [P1 root].
+(* the script-path arm *)
+Definition nn_script_arm : list instr :=
+  [IOp0 O_DUP; ISwap x00 x02; IOp0 O_DUP; ISwap x01 x03; IOp0 O_SHA256; IOp0 O_CONCAT; IOp0 O_SHA256;
+   IOp1 O_CLAMP_SCALAR x00; IOp0 O_DERIVE_POINT; IOp1 O_ADD_POINTS x02; IOp1 O_CALL x00;
+   IOp0 O_EQUAL_VERIFY; IOp0 O_EVAL].
+(* the key-path arm *)
+Definition nn_key_arm (fl : byte) : list instr := [IOp1 O_CALL x00; IOp1 O_CHECK_SIG fl].
+(* "if ( cond ) { a } else { b }" compiles to  cond ; OP_IF_ELSE a b ; "push d32" compiles to OP_PUSH0 x20 *)
+Definition nonnative_taproot_lock (root : bytes) (fl : byte) : bytes :=
+  encode [nn_def root; IOp0 O_DUP; IOp0 O_SIZE; P0 x20; IOp0 O_EQUAL; IIfElse nn_script_arm (nn_key_arm fl)].
+
